@@ -226,6 +226,11 @@ impl World {
             }
             // a semi-fungible holding, for payments with a non-zero nonce
             acc = acc.esdt_nft_balance("str:OTHER-123456", 1u64, big().as_str(), Option::<&str>::None);
+            // the same identifiers as the payment / fee / launchpad tokens, held as a non-fungible (nonce 1):
+            // a payment "in the right token" that is not the fungible token
+            for t in &TOKENS[2..5] {
+                acc = acc.esdt_nft_balance(format!("str:{t}").as_str(), 1u64, big().as_str(), Option::<&str>::None);
+            }
             st = st.put_account(addr_expr(id).as_str(), acc);
         }
         for id in CONTRACT_IDS {
@@ -634,7 +639,7 @@ impl World {
         }
         self.set_block(env.round, env.epoch);
         verif_hooks::with(|h| {
-            h.budget = Some(env.budget.unwrap_or(200_000));
+            h.budget = Some(env.budget.unwrap_or(20_000));
             h.continue_queries = 0;
             h.forced_seeds = VecDeque::from(env.seeds.clone());
             h.fresh_randoms = 0;
